@@ -227,7 +227,11 @@ func collectAccesses(f *ssa.Function, spec guardSpec) []access {
 				}
 			}
 		}
-		out = append(out, access{in: in, fa: fav, write: write, lock: pathOf(base) + "." + spec.Mutex, desc: pathOf(fav)})
+		lock := pathOf(base) + "." + spec.Mutex
+		if spec.Foreign {
+			lock = "@" + spec.Mutex
+		}
+		out = append(out, access{in: in, fa: fav, write: write, lock: lock, desc: pathOf(fav)})
 	})
 	return out
 }
@@ -286,7 +290,11 @@ func checkGuardedBy(r *Report, rule string, fns []*ssa.Function, specs []guardSp
 		flows[f] = lf
 		return lf
 	}
-	holds := func(must lockSet, lock string, write bool) bool {
+	holds := func(fn *ssa.Function, must lockSet, lock string, write bool) bool {
+		if strings.HasPrefix(lock, "@") {
+			_, ok := holdsOwner(fn, must, lock[1:], write)
+			return ok
+		}
 		if must[lock+"/W"] {
 			return true
 		}
@@ -300,6 +308,9 @@ func checkGuardedBy(r *Report, rule string, fns []*ssa.Function, specs []guardSp
 		}
 		if f.Object() != nil && f.Object().Exported() {
 			return false
+		}
+		if strings.HasPrefix(lock, "@") {
+			return true
 		}
 		root := lock
 		if i := strings.IndexAny(lock, ".["); i >= 0 {
@@ -341,7 +352,7 @@ func checkGuardedBy(r *Report, rule string, fns []*ssa.Function, specs []guardSp
 		lf := flow(p.f)
 		must := lf.Must[p.in]
 		construct := fnName(p.f) + ": " + p.desc
-		if holds(must, p.lock, p.write) {
+		if holds(p.f, must, p.lock, p.write) {
 			r.OK(rule, construct, p.in.Pos(), "must-lockset "+realLocks(must).String()+" contains "+p.lock)
 			continue
 		}
@@ -354,7 +365,10 @@ func checkGuardedBy(r *Report, rule string, fns []*ssa.Function, specs []guardSp
 			seenReq[key] = true
 			requires[p.f] = append(requires[p.f], requirement{p.lock, p.write, p.desc})
 			for _, call := range callers[p.f] {
-				tp, ok := translatePath(p.lock, p.f, &call.Call)
+				tp, ok := p.lock, true
+				if !strings.HasPrefix(p.lock, "@") {
+					tp, ok = translatePath(p.lock, p.f, &call.Call)
+				}
 				if !ok {
 					r.Unk(rule, construct+" via "+fnName(call.Parent()), call.Pos(), fnName(call.Parent()), "cannot translate lock path "+p.lock+" to the caller")
 					continue
